@@ -216,7 +216,7 @@ def eval_def(name, val):
     return None
 
 
-def find_witness(neg_goal, facts, dom=4, max_atoms=11, opaque=lambda a: a.startswith('?'), order=None):
+def find_witness(neg_goal, facts, dom=4, max_atoms=11, opaque=lambda a: a.startswith('?'), order=None, accept=None, must_atoms=None):
     """Search a valuation of the atoms (0..dom) satisfying every fact connected to neg_goal
     and neg_goal >= 0.  Returns dict or None; returns 'opaque' when an opaque atom is
     involved, 'toomany' when more than max_atoms atoms are connected."""
@@ -244,7 +244,7 @@ def find_witness(neg_goal, facts, dom=4, max_atoms=11, opaque=lambda a: a.starts
                 facts = [f for f in facts if o not in f.atoms()]
                 progress = True
                 break
-    atoms = set(neg_goal.atoms())
+    atoms = set(neg_goal.atoms()) | set(must_atoms or ())
     conn = []
     changed = True
     pool = list(facts)
@@ -306,10 +306,10 @@ def find_witness(neg_goal, facts, dom=4, max_atoms=11, opaque=lambda a: a.starts
         al = order(al)
     # nested definitions are resolved in name-length order (arguments are shorter than the atoms built from them)
     dl = sorted([a for a in atoms if a in DEFS], key=len)
-    return _search(al, dl, conn, neg_goal, dom)
+    return _search(al, dl, conn, neg_goal, dom, accept)
 
 
-def _search(al, dl, conn, neg_goal, dom):
+def _search(al, dl, conn, neg_goal, dom, accept=None):
     """backtracking enumeration: a constraint is checked as soon as all its atoms have a value"""
     # order atoms so that those of the goal and of many constraints come first
     weight = {a: 0 for a in al}
@@ -348,6 +348,8 @@ def _search(al, dl, conn, neg_goal, dom):
 
     def rec(i):
         if i == len(al):
+            if accept is not None and not accept(v):
+                return None
             return dict(v)
         a = al[i]
         for x in range(dom + 1):
@@ -386,7 +388,7 @@ def _search(al, dl, conn, neg_goal, dom):
             if dv is None:
                 return None
             v[d] = dv
-        return dict(v) if all(f.eval(v) >= 0 for f in conn + [neg_goal]) else None
+        return dict(v) if all(f.eval(v) >= 0 for f in conn + [neg_goal]) and (accept is None or accept(v)) else None
     # constraints without atoms at any level (constants)
     for f in by_level.get(-1, []):
         if not f.atoms() and f.const_value() is not None and f.const_value() < 0:
